@@ -797,6 +797,9 @@ fn gen_cli_items(u: &mut Src, st: &mut Stats) -> Vec<CliItem> {
     items
 }
 
+static TIMEOUTS: std::sync::atomic::AtomicU64 = std::sync::atomic::AtomicU64::new(0);
+static FIRST_TIMEOUT: std::sync::Mutex<Option<String>> = std::sync::Mutex::new(None);
+
 #[derive(Clone, Copy)]
 enum Read {
     JsonArray,
@@ -808,9 +811,19 @@ fn cli_route(name: &'static str, args: &[&str], file: &std::path::Path, read: Re
     let f = file.to_string_lossy().to_string();
     let mut a: Vec<&str> = args.to_vec();
     a.push(&f);
-    let o = cli::run(&a, None);
+    let mut o = cli::run(&a, None);
     if o.timed_out {
-        return Ok(()); // inconclusive by itself; never a violation
+        // a loaded machine can starve one spawn past the watchdog: try once more
+        o = cli::run(&a, None);
+    }
+    if o.timed_out {
+        // inconclusive by itself; never a violation (reported as exit 2 at the end)
+        TIMEOUTS.fetch_add(1, std::sync::atomic::Ordering::Relaxed);
+        let mut g = FIRST_TIMEOUT.lock().unwrap();
+        if g.is_none() {
+            *g = Some(format!("args {:?} input {:?}", args, String::from_utf8_lossy(&std::fs::read(file).unwrap_or_default()).chars().take(600).collect::<String>()));
+        }
+        return Ok(());
     }
     if !o.ok() {
         return Err((None, Mis { route: name, shape: "cli-error", why: format!("exit {:?} signal {:?}: {}", o.code, o.signal, o.stderr_str().chars().take(300).collect::<String>()), printed: String::new() }));
@@ -1107,6 +1120,11 @@ pub fn run(cx: &mut Ctx) {
             },
         );
         req(cx, "cli-batches", "batch>=20", 10);
+        let t = TIMEOUTS.load(std::sync::atomic::Ordering::Relaxed);
+        if t > 0 {
+            let first = FIRST_TIMEOUT.lock().unwrap().clone().unwrap_or_default();
+            cx.infra(format!("{} CLI spawns hit the 20 s watchdog (inconclusive); first: {}", t, first));
+        }
     } else {
         cx.infra(format!("CLI binary not found at {}", cli::cli_path()));
     }
